@@ -228,7 +228,12 @@ class VizierServicer(vizier_service_pb2_grpc.VizierServiceServicer):
       context: Optional[grpc.ServicerContext] = None,
   ) -> empty_pb2.Empty:
     """Deletes a Study."""
-    self.datastore.delete_study(request.name)
+    # Wait for in-flight Pythia computations and trial edits on this study;
+    # they would otherwise continue writing into a study that no longer exists.
+    # (Same lock order as SuggestTrials: operation lock, then study lock.)
+    with self._operation_lock[request.name]:
+      with self._study_name_to_lock[request.name]:
+        self.datastore.delete_study(request.name)
     return empty_pb2.Empty()
 
   def SetStudyState(
@@ -711,6 +716,8 @@ class VizierServicer(vizier_service_pb2_grpc.VizierServiceServicer):
     # Don't allow simultaneous SuggestTrial or EarlyStopping calls to be
     # processed.
     with self._operation_lock[study_name]:
+      # The study may have been deleted while waiting for the lock.
+      study = self.datastore.load_study(study_name)
       try:
         # Reuse any existing early stopping op, since the Pythia policy may have
         # already signaled this trial to stop.
@@ -750,7 +757,6 @@ class VizierServicer(vizier_service_pb2_grpc.VizierServiceServicer):
         output_operation.should_stop = False  # Defaulted back to False.
         self.datastore.update_early_stopping_operation(output_operation)
 
-      study = self.datastore.load_study(study_name)
       study_config = svz.StudyConfig.from_proto(study.study_spec)
       study_descriptor = vz.StudyDescriptor(
           config=study_config,
